@@ -13,3 +13,31 @@ func H_C18_hash() {
 	vAssert(hash.Sum32WithSeed(d, seed) == refMurmur3(d, seed), "C18.hash.murmur3")
 	vCover("C18.hash.done")
 }
+
+// H_C18_dbhash: the hash the DATABASE stores in a slot (DB.hash) is the documented
+// MurmurHash3 of the WHOLE key under the database's seed, for keys of length 0, 3,
+// 17 (symbolic seed) and 1023..1030, 65535 (fixed seed, concrete pattern, the last
+// 6 bytes symbolic): a directory written by the pinned version stores exactly that
+// value, so anything else makes its keys unreachable after a clean reopen.
+func H_C18_dbhash() {
+	vFlag("realHash", 1)
+	lens := []int{0, 3, 17, 1023, 1024, 1025, 1030, 65535}
+	L := lens[vCase()%len(lens)]
+	key := make([]byte, L)
+	for i := range key {
+		key[i] = byte(i*31 + 7)
+	}
+	nsym := 6
+	if L < nsym {
+		nsym = L
+	}
+	sym := vBytes("tail", nsym)
+	copy(key[L-nsym:], sym)
+	seed := uint32(0x9747b28c)
+	if L <= 17 {
+		seed = vU32("seed")
+	}
+	db := &DB{hashSeed: seed}
+	vAssert(db.hash(key) == refMurmur3(key, seed), "C18.dbhash.slot-hash-is-murmur3-of-the-whole-key")
+	vCover("C18.dbhash.done")
+}
